@@ -144,7 +144,7 @@ def setDev (d : Nat) (l : Life) : List (Nat × Life) → List (Nat × Life)
 /-- `process_in_sequence_message` -/
 def apply (s : St) : RMsg → St × List Eff × Option Reason
   | .ndata id ans =>
-    (s, [.nodeData id], if ans = .ok then none else some .invalidPayload)
+    (s, [.nodeData id], match ans with | .ok => none | .invalid => some .invalidPayload | .unknownMetric => some .unknownMetric)
   | .dbirth d id ans =>
     let pr : List (Nat × Life) × List Eff := match findDev d s.devices with
       | some _ => (s.devices, [])
@@ -217,16 +217,16 @@ def handleRMsg (c : Cfg) (s : St) (seq ts : Nat) (m : RMsg) (now : Nat) : St × 
 def handleBirth (c : Cfg) (s : St) (ts bdseq id : Nat) (ans : Ans) (now wall : Nat) : St × List Eff :=
   if ts ≤ s.birthTs then (s, [])
   else
-    let skipStore := s.life = .birthed ∧ s.bdseq = bdseq
-    if ¬ skipStore ∧ ans ≠ .ok then
+    -- every NBIRTH that is strictly newer is shown to the store (a rebirth keeps the bdSeq and may
+    -- define a different metric set; replays were filtered by the timestamp test above)
+    if ans ≠ .ok then
       let (s1, e1) := issueRebirth c s .invalidPayload now wall
       (s1, [.nodeBirth id false] ++ e1)
     else
-      let e0 := if skipStore then [] else [Eff.nodeBirth id true]
       let (s1, e1) := cancelTimer s
       -- a new node birth invalidates the births of its devices: the ones held birthed are told so
       let e2 := (s1.devices.filter fun d => d.2 == Life.birthed).map fun d => Eff.devStale d.1
-      ({ s1 with birthTs := ts, life := .birthed, bdseq := bdseq, reseq := Reseq.setNext Reseq.init 1, devices := s1.devices.map fun d => (d.1, Life.stale) }, e0 ++ e1 ++ e2)
+      ({ s1 with birthTs := ts, life := .birthed, bdseq := bdseq, reseq := Reseq.setNext Reseq.init 1, devices := s1.devices.map fun d => (d.1, Life.stale) }, [Eff.nodeBirth id true] ++ e1 ++ e2)
 
 /-- `handle_message` / the `rebirth_rx` arm of `Node::run` -/
 def step (c : Cfg) (s : St) (i : In) (now wall : Nat) : St × List Eff :=
